@@ -82,7 +82,10 @@ fn oracles(case: Case, nprod_sig: &str, fails: &mut Vec<(String, String)>) {
         }
     }
     let (closed, _ended) = case.flags();
-    if case.eos_seen && !case.stop_called && case.all_idle() && case.queue_len() != 0 {
+    if let Some((q, cl)) = case.eos_early {
+        if q != 0 { fails.push((sig("eos-before-drained"), format!("end-of-stream returned (no stop() before it) with {q} sample(s) queued at that moment"))); }
+        else if !cl { fails.push((sig("eos-without-close"), "end-of-stream returned although neither stop() was called nor the source closed".into())); }
+    } else if case.eos_seen && !case.stop_called && case.all_idle() && case.queue_len() != 0 {
         fails.push((sig("eos-before-drained"), format!("end-of-stream returned with {} sample(s) still queued", case.queue_len())));
     }
     if case.consumer_stuck() && closed && case.all_producers_gone() && !case.stop_called {
@@ -268,6 +271,12 @@ pub fn programs(thorough: bool, rng: &mut Rng) -> Vec<(Program, usize, usize)> {
     v.push((p("3p-mixed", (3, 0, 3), vec![vec![Op::Send(vec![1, 2])], vec![Op::TrySend(1), Op::DropSrc], vec![s1(1), s1(2)]], vec![Op::Recv, Op::Recv], vec![Op::Stop]), 0, 300 * k));
     // index wrap-around of the ring (power-of-two capacity: harmless; see NOTES for capacity 3)
     v.push((p("wrap-cap2", (2, usize::MAX - 1, 1), vec![vec![Op::Send(vec![1, 2, 3])]], vec![Op::Recv, Op::Recv], vec![]), 0, 100 * k));
+    // index wrap × close × parked consumer: the producer's single push wraps `tail` to 0 while `head` is
+    // still usize::MAX, then the last source is dropped (complete trees, track and pipeline)
+    v.push((p("wrap-drop-recv", (2, usize::MAX, 1), vec![vec![s1(1), Op::DropSrc]], vec![Op::Recv, Op::Recv], vec![]), 0, 500 * k));
+    v.push((p("wrap-send-drop-park", (2, usize::MAX, 1), vec![vec![s1(1), Op::DropSrc]], vec![Op::Recv], vec![]), 0, 500 * k));
+    v.push((p("pipe-wrap-drop-recv", (2, usize::MAX, 1), vec![vec![s1(1), Op::DropSrc]], vec![Op::Recv, Op::Recv], vec![]), 0, 400 * k));
+    v.push((p("wrap-cap3-2p-drop", (3, usize::MAX - 1, 2), vec![vec![Op::Send(vec![1, 2]), Op::DropSrc], vec![s1(1), Op::DropSrc]], vec![Op::Recv, Op::Recv, Op::Recv, Op::Recv], vec![]), 0, 300 * k));
     // regression for the fixed finding `wrap-npot`: capacity 3 across the index wrap-around (sequential + random)
     v.push((p("wrap-npot-cap3", (3, usize::MAX - 2, 1), vec![vec![s1(1), s1(2), s1(3), s1(4)]], vec![Op::Recv, Op::Recv, Op::Recv, Op::Recv], vec![]), 0, 150 * k));
     v.push((p("wrap-cap5-2p", (5, usize::MAX - 3, 2), vec![vec![Op::Send(vec![1, 2, 3])], vec![s1(1), Op::TrySend(2), s1(3)]], vec![Op::Recv, Op::Recv, Op::Recv], vec![]), 0, 150 * k));
